@@ -11,6 +11,8 @@ main        one process edits a LocationStack-like assembly (locations.conf with
 concurrent  2-3 processes with private Store/Stack objects set *different* options in the
             same LockableIniFileStore file and save, interleaved at every store operation by
             the seeded scheduler; a fresh reader must find every acknowledged change.
+read_error  a fresh process edits and saves while its n-th read fails with an injected
+            error; whatever fails, options stored before and not touched must survive.
 crash_save  one process saves and crashes at the k-th mutating store op of the save; a fresh
             reader must parse the file and see the old or the new content."""
 
@@ -26,7 +28,10 @@ RULE = (
     "one case = one seeded run of one kind: main (edit script over 1-3 stores with values from the value grammar, "
     "section names from the path/glob grammar, ignore_parents, :policy=appendpath, {relpath}/{basename}, save, re-open, "
     "reads at seeded locations), concurrent (2-3 writer scripts on one file, save protocol, schedule policy) or "
-    "crash_save (edit script, store kind, crash point inside the save); non-trivial = main: at least one value was read "
+    "crash_save (edit script, store kind, crash point inside the save) or read_error (durable content, a fresh process's "
+    "edit/save script, 1-2 injected errors PermissionDenied|TransportError|ConnectionError - NoSuchFile only when the "
+    "file is absent - at its n-th read); non-trivial = read_error: an error fired, durable content existed and a save "
+    "was attempted; main: at least one value was read "
     "back after save + re-open and one lookup had >= 2 matching sections; concurrent: >= 2 actors completed a save and "
     "the scheduler switched actors inside a save; crash_save: the crash fired inside the save; distinct = distinct "
     "event-log digests of such runs"
@@ -185,7 +190,9 @@ CLASS_RANK = ["plain", "list", "both-quote-kinds", "newline", "newline+triple-qu
 
 
 def generate(rng, tier):
-    mode = rng.choice(["main"] * 5 + ["concurrent"] * 4 + ["crash_save"] * 2)
+    mode = rng.choice(["main"] * 5 + ["concurrent"] * 4 + ["crash_save"] * 2 + ["read_error"] * 3)
+    if mode == "read_error":
+        return gen_read_error(rng)
     if mode == "main":
         return gen_main(rng)
     if mode == "concurrent":
@@ -338,6 +345,43 @@ def gen_crash(rng):
     }
 
 
+def gen_read_error(rng):
+    """Durable content, then a fresh process edits and saves while one or two of its reads
+    fail with an injected error."""
+    sections = ["/s/one", "/s/two", "DEFAULT", None]
+    init = []
+    for k in range(rng.choice([0, 2, 3, 4, 5, 6])):
+        init.append([rng.choice(sections), f"i{k}", gen_plain_value(rng)])
+    ops = []
+    names = [i[1] for i in init]
+
+    def edit():
+        r = rng.random()
+        if init and r < 0.2:
+            sec, nm, _ = rng.choice(init)
+            ops.append(["remove", sec, nm])
+        elif init and r < 0.4:
+            sec, nm, _ = rng.choice(init)
+            ops.append(["set", sec, nm, gen_plain_value(rng)])
+        else:
+            ops.append(["set", rng.choice(sections), f"n{len(ops)}", gen_plain_value(rng)])
+
+    for _round in range(rng.choice([1, 1, 2])):
+        if rng.random() < 0.3:
+            ops.append(["get", rng.choice(sections), rng.choice(names + ["nope"])])
+        for _ in range(rng.randint(1, 3)):
+            edit()
+        ops.append(["save"])
+        if rng.random() < 0.3:
+            ops.append(["unload"])
+    # a read error is a lie about an existing file unless the file really is absent
+    errs = ["permission", "permission", "transport", "connection"] if init else ["permission", "transport", "nosuchfile", "nosuchfile"]
+    faults = []
+    for n in sorted(rng.sample(range(1, 7), rng.choice([1, 1, 2]))):
+        faults.append({"kind": "err_before", "op": "get", "nth": n, "err": rng.choice(errs)})
+    return {"mode": "read_error", "store": rng.choice(["lockable", "lockable", "transport"]), "init": init, "ops": ops, "faults": faults}
+
+
 # -- model -------------------------------------------------------------------------------------
 
 
@@ -442,6 +486,8 @@ def execute(sim, plan):
         run_main(sim, plan)
     elif mode == "concurrent":
         run_concurrent(sim, plan)
+    elif mode == "read_error":
+        run_read_error(sim, plan)
     else:
         run_crash(sim, plan)
 
@@ -892,3 +938,101 @@ def run_crash(sim, plan):
         sim.fail("crash_save", ["crash_save", "crash", "unusable-afterwards"], f"saving again after the crash failed: {type(e).__name__}: {e}")
     sim.nontrivial = outcome == "crash"
     sim.state_seen((plan["store"], plan["faults"][0]["at"] if plan.get("faults") else 0, outcome))
+
+
+# -- read errors during save / reload ------------------------------------------------------------
+
+
+def run_read_error(sim, plan):
+    """A save may fail; it must never drop options that were durably stored and that the
+    pending changes do not touch."""
+    import configobj
+    from breezy import config
+    from breezy.transport import get_transport
+
+    sim.disarm()
+    root = world.new_store("cfg")
+    raw(get_transport(root)).mkdir("conf")
+    url = root + "conf/"
+
+    def mk():
+        t = get_transport(url)
+        if plan["store"] == "lockable":
+            return config.LockableIniFileStore(t, FILE)
+        return config.TransportIniFileStore(t, FILE)
+
+    def stack_for(store, section):
+        return config.Stack([config.NameMatcher(store, section).get_sections], store, mutable_section_id=section)
+
+    st = mk()
+    for sec, nm, v in plan["init"]:
+        try:
+            stack_for(st, sec).set(nm, v)
+        except configobj.ConfigObjError:
+            continue
+    st.save_changes()
+    durable = {s: dict(o) for s, o in read_all(mk()).items() if o}
+    touched = {(op[1], op[2]) for op in plan["ops"] if op[0] in ("set", "remove")}
+    errs = sorted({f["err"] for f in plan.get("faults", [])})
+    sim.event("read_error", plan["store"], errs, len(durable))
+
+    # the process under test: fresh objects, faults armed for all of its reads
+    st = mk()
+    sim.arm(plan.get("faults", []))
+    failed = []
+    for op in plan["ops"]:
+        k = op[0]
+        try:
+            if k == "set":
+                stack_for(st, op[1]).set(op[2], op[3])
+            elif k == "remove":
+                stack_for(st, op[1]).remove(op[2])
+            elif k == "get":
+                stack_for(st, op[1]).get(op[2], expand=False)
+            elif k == "save":
+                st.save_changes()
+            elif k == "unload":
+                st.unload()
+        except SimCrash:
+            raise
+        except KeyError:
+            pass  # remove of an option this (possibly half-loaded) store does not see
+        except Exception as e:  # noqa: BLE001 - any operation may fail under a read error
+            if not sim.faults_fired:
+                raise
+            failed.append(k)
+            sim.event("failed", k, type(e).__name__)
+            sim.probe("op_failed_" + k)
+    sim.disarm()
+    fired = sum(sim.faults_fired.values())
+    if fired:
+        sim.probe("read_error_fired")
+    sim.restart_main("reader")
+    rd = mk()
+    if plan["store"] == "lockable":
+        try:
+            rd.break_lock()  # an error inside unlock may have left the lock behind
+        except Exception:  # noqa: BLE001
+            pass
+    kind = "err_before" if fired else "none"
+    try:
+        got = read_all(rd)
+    except Exception as e:  # noqa: BLE001
+        sim.fail("read_error", ["read_error", kind, "unparseable"], f"after saving under read errors {errs} the file cannot be loaded: {type(e).__name__}: {str(e)[:300]}")
+    lost = []
+    for sec, opts in sorted(durable.items(), key=repr):
+        for nm, v in sorted(opts.items()):
+            if (sec, nm) in touched:
+                continue
+            have = got.get(sec, {}).get(nm)
+            if have != v:
+                lost.append((sec, nm, v, have))
+    if lost:
+        sim.fail(
+            "read_error",
+            ["read_error", kind, "unrelated-option-dropped"],
+            f"read errors {plan.get('faults')} during {[o[0] for o in plan['ops']]} (failed ops {failed}): options that were stored before and are not touched by the pending changes are gone or changed: {[(s, n, 'stored', v, 'now', h) for s, n, v, h in lost][:4]}; file now {raw(get_transport(url)).get_bytes(FILE)[:300]!r}",
+        )
+    # pending changes whose save returned normally and that no later op touched are there
+    sim.nontrivial = bool(fired) and bool(durable) and any(op[0] == "save" for op in plan["ops"])
+    sim.state_seen((plan["store"], tuple(errs), fired, tuple(failed), len(durable)))
